@@ -279,10 +279,16 @@ pub enum Via {
     Execute,
     Migrate,
     Sudo,
+    /// from the reply entry point: the emitting contract first calls a helper (which succeeds or
+    /// fails, see `trigger_fails`) with reply_on Always and returns the routed message from the
+    /// reply to that call
+    Reply,
 }
 
 #[derive(Clone, Debug, Serialize, Deserialize)]
 pub struct Case {
+    #[serde(default)]
+    pub trigger_fails: bool,
     #[serde(default)]
     pub via: Via,
     /// bank, custom, staking, distribution, ibc, gov, stargate
@@ -550,6 +556,7 @@ impl RoutingCheck {
                 let via = match case.via {
                     Via::Sudo if chain.len() == 1 => Via::Sudo,
                     Via::Migrate if !chain.is_empty() => Via::Migrate,
+                    Via::Reply if !chain.is_empty() => Via::Reply,
                     _ => Via::Execute,
                 };
                 let code_id = if case.origin == Origin::Lifted { b.lifted_code } else { b.puppet_code };
@@ -571,12 +578,21 @@ impl RoutingCheck {
                             let m: CosmosMsg<XMsg> = WasmMsg::Execute { contract_addr: b.helper.to_string(), msg: to_json_binary(&PMsg { n: 50 }).unwrap(), funds: vec![] }.into();
                             n.subs.push(SubMsg { id: 2, payload: Binary::default(), msg: m, gas_limit: None, reply_on: ReplyOn::Never });
                         }
-                        n.subs.push(SubMsg { id: 7, payload: Binary::from(b"pl".to_vec()), msg: msg.clone(), gas_limit: None, reply_on: ro(case.reply_on) });
+                        let routed = SubMsg { id: 7, payload: Binary::from(b"pl".to_vec()), msg: msg.clone(), gas_limit: None, reply_on: ro(case.reply_on) };
+                        if via == Via::Reply {
+                            let m: CosmosMsg<XMsg> = WasmMsg::Execute { contract_addr: b.helper.to_string(), msg: to_json_binary(&PMsg { n: 51 }).unwrap(), funds: vec![] }.into();
+                            n.subs.push(SubMsg { id: 8, payload: Binary::from(b"tr".to_vec()), msg: m, gas_limit: None, reply_on: ReplyOn::Always });
+                            lookup.insert((chain[i].to_string(), 8u64, b"tr".to_vec()), 61usize);
+                            nodes.insert(61, NodeRt { writes: vec![Write::Set(Hx(b"triggered".to_vec()), Hx(vec![1]))], subs: vec![routed], ..Default::default() });
+                        } else {
+                            n.subs.push(routed);
+                        }
                         lookup.insert((chain[i].to_string(), 7u64, b"pl".to_vec()), 60usize);
                     }
                     nodes.insert(i, n);
                 }
                 nodes.insert(50, NodeRt { writes: vec![Write::Set(Hx(b"sib".to_vec()), Hx(vec![1]))], ..Default::default() });
+                nodes.insert(51, NodeRt { writes: vec![Write::Set(Hx(b"trig".to_vec()), Hx(vec![1]))], fail: case.trigger_fails, ..Default::default() });
                 nodes.insert(60, NodeRt { writes: vec![Write::Set(Hx(b"replied".to_vec()), Hx(vec![1]))], ..Default::default() });
                 install(nodes, BTreeMap::new(), lookup);
                 let _ = take_rlog();
@@ -618,6 +634,9 @@ impl RoutingCheck {
                 if case.sibling && !chain.is_empty() {
                     wasm_want.push((emitter.to_string(), b.helper.to_string()));
                 }
+                if via == Via::Reply {
+                    wasm_want.push((emitter.to_string(), b.helper.to_string()));
+                }
                 ensure!(wasm_seen == wasm_want, "C17:wasm-module-bypassed", "{:?} from {:?}: the configured wasm module saw the calls {:?}, the call chain is {:?}", k, case.origin, wasm_seen, wasm_want);
                 let mine: Vec<&LogEntry> = log.iter().filter(|e| e.slot != "wasm").filter(|e| !(e.slot == "bank" && e.op == "query" && e.payload.contains("all_balances"))).filter(|e| !(e.slot == "bank" && eslot == "staking" && mode == Mode::Default)).collect();
                 let hits: Vec<&&LogEntry> = mine.iter().filter(|e| e.slot == eslot && e.op == eop && e.payload == epayload).collect();
@@ -642,7 +661,11 @@ impl RoutingCheck {
                 }
                 // --- replies
                 if !chain.is_empty() {
-                    let replies: Vec<&crate::engines::tree::puppet::TraceEntry> = trace.iter().filter(|e| e.kind == Kind::Reply).collect();
+                    let replies: Vec<&crate::engines::tree::puppet::TraceEntry> = trace.iter().filter(|e| e.kind == Kind::Reply && e.reply.as_ref().map_or(true, |r| r.id != 8)).collect();
+                    if via == Via::Reply {
+                        let trig: Vec<&crate::engines::tree::puppet::TraceEntry> = trace.iter().filter(|e| e.kind == Kind::Reply && e.reply.as_ref().map_or(false, |r| r.id == 8)).collect();
+                        ensure!(trig.len() == 1 && trig[0].reply.as_ref().map(|r| r.ok) == Some(!case.trigger_fails), "C17:call-chain", "{:?}: the reply that emits the routed message ran {} times ({:?})", k, trig.len(), trig.first().map(|t| &t.reply));
+                    }
                     let due = (ok && matches!(case.reply_on, RO::Success | RO::Always)) || (!ok && matches!(case.reply_on, RO::Error | RO::Always));
                     // whether a reply runs is C03's; here only: if it runs, it reports the module's outcome
                     let _ = due;
@@ -654,10 +677,16 @@ impl RoutingCheck {
                     if case.sibling {
                         want.push(b.helper.as_str());
                     }
+                    if via == Via::Reply {
+                        want.push(b.helper.as_str());
+                    }
                     ensure!(entered == want, "C17:call-chain", "{:?}: entered {:?}, expected {:?}", k, entered, want);
                 }
                 cx.label(&format!("exec:{}:{:?}:{:?}", eslot, case.origin, mode));
                 cx.label(&format!("emitted-from:{:?}", via));
+                if via == Via::Reply {
+                    cx.label(if case.trigger_fails { "emitted-from:reply-to-a-failed-call" } else { "emitted-from:reply-to-a-successful-call" });
+                }
                 if (slot != 0 && !chain.is_empty()) || case.origin == Origin::Lifted || (!ok && case.sibling) {
                     cx.mark_nontrivial();
                 }
@@ -761,7 +790,7 @@ impl Check for RoutingCheck {
         Spec {
             id: "C17",
             level: "exploration",
-            rule: "generated: a mode (crate's real keeper/default, crate's accepting module, crate's failing module) for each of the seven router slots, a message (16 kinds over bank, custom, staking, distribution, ibc, gov, stargate, any) or query (9 kinds) or sudo with generated payload, an origin (top level; chain of 1-3 contracts written for the chain's message type; chain of 1-3 Empty-typed contracts lifted by ContractWrapper), a reply_on mode and an optional earlier sibling write; oracle: exactly one log entry, in the slot configured for that kind, with the dispatching contract/user as sender and the payload intact, no other module called, caller sees Ok iff the module accepted (or the failure is caught by reply), failed calls leave root storage byte-identical including the marker the module wrote before failing. The cross product {kind} x {origin} x {mode} x {Never, Always} is enumerated in every run. Non-trivial: a non-bank kind from depth>=1, or the lifted origin, or a failing module after a sibling write, or a query from inside a contract; distinct = distinct serialised case",
+            rule: "generated: a mode (crate's real keeper/default, crate's accepting module, crate's failing module) for each of the seven router slots, a message (16 kinds over bank, custom, staking, distribution, ibc, gov, stargate, any) or query (9 kinds) or sudo with generated payload, an entry point of the emitting contract (execute, migrate, sudo, or the reply to a helper call that succeeded or failed), an origin (top level; chain of 1-3 contracts written for the chain's message type; chain of 1-3 Empty-typed contracts lifted by ContractWrapper), a reply_on mode and an optional earlier sibling write; oracle: exactly one log entry, in the slot configured for that kind, with the dispatching contract/user as sender and the payload intact, no other module called, caller sees Ok iff the module accepted (or the failure is caught by reply), failed calls leave root storage byte-identical including the marker the module wrote before failing. The cross product {kind} x {origin} x {mode} x {Never, Always} is enumerated in every run. Non-trivial: a non-bank kind from depth>=1, or the lifted origin, or a failing module after a sibling write, or a query from inside a contract; distinct = distinct serialised case",
             assumptions: vec![
                 "with a real keeper in a slot only requests that keeper supports are sent (delegate, set-withdraw-address, bank send/burn by funded senders)",
                 "CosmosMsg::Custom cannot be emitted by an Empty-typed contract (excluded for the lifted origin)",
@@ -797,12 +826,13 @@ impl Check for RoutingCheck {
             2 => RO::Error,
             _ => RO::Always,
         };
-        let via = match g.weighted(&[3, 2, 1]) {
+        let via = match g.weighted(&[3, 2, 1, 3]) {
             0 => Via::Execute,
             1 => Via::Migrate,
-            _ => Via::Sudo,
+            2 => Via::Sudo,
+            _ => Via::Reply,
         };
-        Case { via, modes, origin, depth: 1 + g.below(3) as u8, what, reply_on, sibling: g.bool() }
+        Case { trigger_fails: g.bool(), via, modes, origin, depth: 1 + g.below(3) as u8, what, reply_on, sibling: g.bool() }
     }
 
     fn execute(&self, case: &Case, cx: &mut Cx) -> Result<(), Failure> {
@@ -821,8 +851,8 @@ impl Check for RoutingCheck {
                     for reply_on in [RO::Never, RO::Always] {
                         let mut modes = vec![Mode::Default; 7];
                         modes[slot_of(k)] = mode;
-                        for via in [Via::Execute, Via::Migrate, Via::Sudo] {
-                            out.push(Case { via, modes: modes.clone(), origin, depth: 1, what: What::Exec(k.clone()), reply_on, sibling: reply_on == RO::Never });
+                        for via in [Via::Execute, Via::Migrate, Via::Sudo, Via::Reply] {
+                            out.push(Case { trigger_fails: reply_on == RO::Always, via, modes: modes.clone(), origin, depth: 1, what: What::Exec(k.clone()), reply_on, sibling: reply_on == RO::Never });
                         }
                     }
                 }
@@ -832,7 +862,7 @@ impl Check for RoutingCheck {
         for q in &queries {
             for origin in [Origin::Top, Origin::Puppet, Origin::Lifted] {
                 for mode in [Mode::Default, Mode::Accept, Mode::Fail] {
-                    out.push(Case { via: Via::Execute, modes: vec![mode; 7], origin, depth: 2, what: What::Query(q.clone()), reply_on: RO::Never, sibling: false });
+                    out.push(Case { trigger_fails: false, via: Via::Execute, modes: vec![mode; 7], origin, depth: 2, what: What::Query(q.clone()), reply_on: RO::Never, sibling: false });
                 }
             }
         }
@@ -858,6 +888,11 @@ impl Check for RoutingCheck {
         if case.sibling {
             let mut c = case.clone();
             c.sibling = false;
+            out.push(c);
+        }
+        if case.trigger_fails {
+            let mut c = case.clone();
+            c.trigger_fails = false;
             out.push(c);
         }
         for i in 0..7 {
